@@ -144,6 +144,9 @@ pub fn check(c: &OntCase, stats: &mut Stats) -> CheckResult {
     if (0..3).any(|k| s1.recs[k].values().any(|r| r.terms.is_empty())) {
         stats.label("record-without-terms");
     }
+    if bytes.len() > 65_535 {
+        stats.label("file>65535-bytes");
+    }
     if s1.terms.contains_key(&9_999_999) {
         stats.label("max-term-id");
     }
@@ -169,7 +172,12 @@ fn strategy(tier: Tier) -> BoxedStrategy<OntCase> {
     let capped = GenCfg::small().terms(2, max).recs(5).standard().with_flags(true).names(NameMode::Capped).bulk();
     prop_oneof![
         3 => gen::facts(rich.clone()).prop_map(|facts| OntCase { facts, path: PathSel::BuilderDefaults, noise: JaxNoise::default() }),
-        3 => gen::facts(capped).prop_map(|facts| OntCase { facts, path: PathSel::Bin(3), noise: JaxNoise::default() }),
+        3 => (gen::facts(capped), proptest::bool::weighted(0.01)).prop_map(|(facts, big)| {
+            // 1 in 100: 300 extra terms with 200-byte names, records annotated to all of them
+            // (sections beyond 65 535 bytes, records with more than 256 terms)
+            let facts = if big { super::c08::inflate(&facts) } else { facts };
+            OntCase { facts, path: PathSel::Bin(3), noise: JaxNoise::default() }
+        }),
         3 => (gen::facts(rich), noise_strategy(), any::<bool>()).prop_map(|(facts, noise, t)| OntCase { facts, path: if t { PathSel::JaxT } else { PathSel::Jax }, noise }),
     ]
     .boxed()
@@ -195,7 +203,7 @@ impl Property for C07 {
         }
     }
     fn required_labels(&self, _tier: Tier) -> Vec<&'static str> {
-        vec!["nontrivial", "term-name-multibyte-at-255", "gene-name-multibyte-at-255", "name-over-255", "names-fit", "obsolete", "replaced", "empty-section", "record-without-terms", "max-term-id", "max-record-id"]
+        vec!["nontrivial", "term-name-multibyte-at-255", "gene-name-multibyte-at-255", "name-over-255", "names-fit", "obsolete", "replaced", "empty-section", "record-without-terms", "max-term-id", "max-record-id", "file>65535-bytes"]
     }
     fn run_generated(&self, tier: Tier, seed: u64, n: u64, stats: &mut Stats) -> Option<(Value, Failure)> {
         run_typed(strategy(tier), seed, n, stats, check)
